@@ -429,4 +429,27 @@ example : MacTok "52:54:00:aa:bb:cc".toList ∧ macIgnored "52:54:00:aa:bb:cc".t
   ⟨⟨':', '5', '2', '5', '4', '0', '0', 'a', 'a', 'b', 'b', 'c', 'c', by decide, by decide, by decide, by decide,
     by decide, by decide, by decide, by decide, by decide, by decide, by decide, by decide, by decide, rfl⟩, by decide⟩
 
+/-! ### per-spec exemptions are per CALL -/
+
+/-- the stages a call runs are determined by the configuration and by THAT call's exemption list alone (two calls
+with the same `no_obfuscate` run the same stages, whatever `no_redact` / `width` say and whatever was called before) -/
+theorem stages_depend_on_own_exemptions (cfg : Cfg) (c c' : Call) (h : c.noObf = c'.noObf) :
+    stagesOf cfg c = stagesOf cfg c' := by
+  simp [stagesOf, h]
+
+/-- in a history of calls on one cleaner, what call `k` yields is what a single call with the same arguments yields
+(on a cleaner with the same configuration and the same substitute tables) … -/
+theorem history_call_is_single_call (hit : Pat → Str → Bool) (cfg : Cfg) (tb : Tables) (calls : List CallIn) (k : Nat) :
+    (cleanHistory hit cfg tb calls)[k]? = (calls[k]?).map (fun c => cleanContent hit cfg tb c.1 c.2.1 c.2.2) := by
+  simp [cleanHistory]
+
+/-- … hence it does not depend on the other calls of the history — in particular not on THEIR exemptions -/
+theorem exemption_is_per_call (hit : Pat → Str → Bool) (cfg : Cfg) (tb : Tables) (h h' : List CallIn) (k : Nat)
+    (hk : h[k]? = h'[k]?) : (cleanHistory hit cfg tb h)[k]? = (cleanHistory hit cfg tb h')[k]? := by
+  rw [history_call_is_single_call, history_call_is_single_call, hk]
+
+/-- an exempting call followed by a non-exempted one: the second runs every enabled stage -/
+example : stagesOf cfgX ⟨["hostname".toList, "ip".toList, "ipv6".toList, "mac".toList], false, false⟩ = [Stage.keyword, Stage.password] ∧
+    stagesOf cfgX callX = [Stage.hostname, Stage.ip, Stage.keyword, Stage.mac, Stage.password] := by decide
+
 end IV.CleanLine
